@@ -85,7 +85,9 @@ def case_variants(v, rng=None):
 
 
 JUNK = ["?", "Q", "ZZ", "0", "1", "-", "N/A", "NONE", "high", "Not Defined", "XX", "ND ND", ":", "/", "é", "AV:N", "x x",
-        "\t?", "None", "null", "*"]
+        "\t?", "None", "null", "*",
+        # format / template metacharacters (an answer is user text and may end up in a message)
+        "{", "}", "{}", "{0}", "{x}", "n}", "{7}", "%s", "%(x)s", "%", "\\", "$x", "${x}", "'", "\"", "\x1b[0m", "(N)", "|"]
 
 
 _order_cache = {}
